@@ -32,7 +32,7 @@ CHECKS = {
         design="4/C09",
     ),
     "C20": dict(
-        specs=["CodecR.tla", "Codec.tla", "CodecIO.tla", "Capture.tla", "LRU.tla"],
+        specs=["CodecR.tla", "Codec.tla", "CodecIO.tla", "Capture.tla", "LRU.tla", "apalache/LRUInd.tla"],
         text="The laws the property states (XOR length-preserving / self-inverse / identity keys, NetBIOS round trip at every "
         "offset, pack/unpack inverses, classifier shape) are model-checked on the reference operators for every input of the "
         "small model; TLC-computed tables (all data/key pairs over {0,1,255}, all bytes, all short URIs, boundary integers of "
@@ -41,7 +41,7 @@ CHECKS = {
         "requests, staged-beacon discovery switching decoding on, metadata de-duplication, ignored POST responses, swallowed "
         "decode errors) against a declarative expectation, with the action property that only a response to a KNOWN stager "
         "request switches decoding on; every capture of its dumped graphs (from the empty capture and from a staged prefix) is "
-        "replayed on the real BeaconCapture with fake packet objects carrying real traffic; LRU.tla does the same for utils.LRUDict.",
+        "replayed on the real BeaconCapture with fake packet objects carrying real traffic; LRU.tla does the same for utils.LRUDict. LRUDict for any number of operations: Bounded/NoDup/DomainIsOrder are proved inductive by Apalache (spec/apalache/LRUInd.tla, 5 keys, maxsize 3; the variant without eviction fails the step).",
         note="Trusted: TLC, CodecR, the harness' int<->limb conversion (TLC integers are 32-bit). checksum8 is taken as defined by "
         "Cobalt Strike/Metasploit (sum of non-slash characters mod 256, 0 below 4 characters).",
         technique="TLC-evaluated reference tables replayed into the code + recorded calls judged by TLC",
@@ -239,7 +239,7 @@ CHECKS = {
         design="4/C10",
     ),
     "C11": dict(
-        specs=["ProfileProd.tla", "Profile.tla", "ProfileHist.tla", "ProfileIO.tla"],
+        specs=["ProfileProd.tla", "Profile.tla", "ProfileHist.tla", "ProfileIO.tla", "apalache/ProfileHistInd.tla"],
         text="Profile.tla carries, next to the token sequence, the dictionary entries a profile states (list paths for the six "
         "data-transform places and the execute list, keyed paths otherwise, variants as a path component, \"default\" elided): "
         "the reference dictionary view. Every dumped profile (and concatenations, and versions with syntax-laden literals) is "
@@ -247,7 +247,7 @@ CHECKS = {
         "profiles are rebuilt through the block-builder API and tree, text and dictionary must coincide with the parsed text. "
         "ProfileHist.tla models the content-keyed cache under interleavings of four kinds of modification and as_dict(); TLC "
         "checks the view is always current (a selectively invalidated cache is rejected) and every path of its dumped graph is "
-        "replayed on a real C2Profile.",
+        "replayed on a real C2Profile. For interleavings of any length the cache protocol has an inductive invariant (the cache holds the view of the content it is keyed by; the last view handed out is current) that Apalache discharges symbolically (spec/apalache/ProfileHistInd.tla: base case, induction step, and the step of the selectively invalidated cache fails).",
         note="Trusted: TLC, Profile.tla's entries, ProfileProd, harness unescape. transform-x86/x64 blocks may be reported either way; "
         "data-transform blocks in variants / non-Cobalt-Strike places are not constrained; builder replays exclude variants.",
         technique="TLA+ generator automaton with reference entries + cache history model (TLC); dumped profiles and histories replayed on the real object",
@@ -351,9 +351,9 @@ def build():
                 "name": "tlc+replay",
                 "path": "harness/vt",
                 "serves_properties": sorted(CHECKS),
-                "kind_free_text": "explicit TLA+ specifications (spec/*.tla) model-checked by TLC; conformance by "
-                "replaying TLC-computed expectation tables / state graphs into the real library and by TLC judging "
-                "traces recorded from the real library",
+                "kind_free_text": "explicit TLA+ specifications (spec/*.tla) model-checked by TLC (two inductive invariants in "
+                "spec/apalache discharged by Apalache); conformance by replaying TLC-computed expectation tables / state graphs "
+                "into the real library and by TLC judging traces recorded from the real library",
             }
         ],
         "checks": checks,
